@@ -153,6 +153,19 @@ def run_ops_mesh(case, r):
             r.check(type(res) is cls, 'result-type', f'{tag}: {what} returned {type(res).__name__}')
             r.check(np.array_equal(np.asarray(res), exp), 'result-value', f'{tag}: {what} gives a wrong value')
             r.check(not shares(res, names[a]) and not (kind == 0 and shares(res, names[b])), 'result-independent', f'{tag}: result of {what} shares memory with an operand')
+            if kind == 1 and not case['cplx'] and rng.random() < 0.5:
+                # real data combined with a complex scalar (phase factors, complex time steps): the result changes its dtype, it
+                # is still the same data type with value semantics (not stored: the program itself stays real)
+                zc = complex(rng.standard_normal(), rng.standard_normal())
+                wz = int(rng.integers(0, 4))
+                rz = [names[a] * zc, zc + names[a], names[a] - zc, np.exp(1j * names[a])][wz]
+                ez = [pa * zc, zc + pa, pa - zc, np.exp(1j * pa)][wz]
+                whatz = f'real {cls.__name__} combined with a complex scalar (variant {wz})'
+                unchanged(before, whatz)
+                r.check(type(rz) is cls, 'result-type', f'{tag}: {whatz} returned {type(rz).__name__}')
+                r.check(np.array_equal(np.asarray(rz), ez), 'result-value', f'{tag}: {whatz} gives a wrong value')
+                r.check(not shares(rz, names[a]), 'result-independent', f'{tag}: result of {whatz} shares memory with its operand')
+                r.count('mixed_real_complex_operations')
             names[f'v{int(rng.integers(0, 4))}'] = res
         elif kind == 3:  # reflected scalar ops and unary minus
             s = float(rng.uniform(0.5, 2)) if rng.random() < 0.7 else [1.0, 0.0, -1.0][int(rng.integers(0, 3))]
